@@ -254,13 +254,15 @@ func GenEntry(t *rapid.T, label string, linkWeight, escapeWeight int) tarx.Entry
 	case "symlink", "hardlink":
 		e.Link = genTarget(t, label, escapeWeight)
 	case "xglobal":
-		e.Name = "pax_global_header"
+		if rapid.Bool().Draw(t, label+"gname") {
+			e.Name = "pax_global_header"
+		}
 		e.PAX = map[string]string{"comment": "x"}
 	}
 	if strings.HasPrefix(e.Type, "raw:") {
 		e.Raw = true
 		e.Body = "IN:raw"
-	} else if rapid.IntRange(0, 9).Draw(t, label+"rawhdr") == 0 && e.Type != "xglobal" {
+	} else if rapid.IntRange(0, 9).Draw(t, label+"rawhdr") == 0 {
 		e.Raw = true
 	} else {
 		e.Format = rapid.SampledFrom([]string{"", "", "ustar", "pax", "gnu"}).Draw(t, label+"fmt")
@@ -297,17 +299,19 @@ func GenCase(t *rapid.T, linkWeight, escapeWeight int, withFaults bool, withAllo
 	c.Entries = rapid.SliceOfN(rapid.Custom(func(t *rapid.T) tarx.Entry {
 		return GenEntry(t, "", linkWeight, escapeWeight)
 	}), 1, 8).Draw(t, "entries")
+	planted := false
 	if rapid.IntRange(0, 99).Draw(t, "scenario?") < 18 {
 		c.Entries = scenario(t, c.Entries)
+		planted = true
 	}
 	// cooperation: later entries reuse, extend or shorten the names of earlier
 	// ones, and link targets pass through earlier entries
 	coop := rapid.SliceOfN(rapid.IntRange(0, 99), 8, 8).Draw(t, "coop")
 	pick := rapid.SliceOfN(rapid.IntRange(0, 7), 8, 8).Draw(t, "pick")
-	for i := 1; i < len(c.Entries); i++ {
-		if c.Entries[i].Type == "xglobal" {
-			continue
-		}
+	if planted && pick[0]%2 == 0 {
+		coop = []int{99, 99, 99, 99, 99, 99, 99, 99} // leave the planted family as drawn
+	}
+	for i := 1; i < len(c.Entries) && i < 8; i++ {
 		j := pick[i] % i
 		// prefer an earlier link as the partner
 		for k := 0; k < i; k++ {
@@ -330,7 +334,7 @@ func GenCase(t *rapid.T, linkWeight, escapeWeight int, withFaults bool, withAllo
 		case coop[i] < 30:
 			c.Entries[i].Name = base
 		case coop[i] < 41:
-			c.Entries[i].Name = base + "/" + simpleSegs[p2%len(simpleSegs)]
+			c.Entries[i].Name = base + "/" + simpleSegs[p2%len(simpleSegs)] + []string{"", "", "/y"}[pick[(i+3)%8]%3]
 		case coop[i] < 45:
 			if k := strings.LastIndex(base, "/"); k > 0 {
 				c.Entries[i].Name = base[:k]
@@ -339,7 +343,7 @@ func GenCase(t *rapid.T, linkWeight, escapeWeight int, withFaults bool, withAllo
 			c.Entries[i].Name = "zz/../" + strings.TrimPrefix(base, "/") + []string{"", "/x", "/a"}[p2%3]
 		case coop[i] < 57 && other != "" && !strings.Contains(other, ".."):
 			// below an earlier (link) entry, along a path that exists elsewhere in dst
-			c.Entries[i].Name = strings.TrimPrefix(base, "/") + "/" + other + []string{"", "/x", "/esc"}[p2%3]
+			c.Entries[i].Name = strings.TrimPrefix(base, "/") + "/" + other + []string{"", "/x", "/esc", "/esc/y"}[p2%4]
 		}
 	}
 	c.Fault.Kind = "none"
@@ -378,18 +382,43 @@ func scenario(t *rapid.T, rest []tarx.Entry) []tarx.Entry {
 		return e
 	}
 	third := func(name string) tarx.Entry {
-		switch rapid.IntRange(0, 3).Draw(t, "third") {
+		switch rapid.IntRange(0, 5).Draw(t, "third") {
 		case 0:
 			return ent(name, "file", "")
 		case 1:
 			return ent(name, "dir", "")
+		case 4:
+			// entry kinds for which nothing is extracted still have their parent directories made
+			e := ent(name, rapid.SampledFrom([]string{"xglobal", "xglobal", "fifo", "hardlink", "raw:Z"}).Draw(t, "tkind"), "")
+			if e.Type == "hardlink" {
+				e.Link = "a"
+			}
+			return e
 		default:
 			ups := strings.TrimSuffix(strings.Repeat("../", rapid.IntRange(1, 4).Draw(t, "tups")), "/")
 			return ent(name, "symlink", ups+rapid.SampledFrom([]string{"", "/dst-evil/x", "/outside", "/a"}).Draw(t, "ttail"))
 		}
 	}
 	var plant []tarx.Entry
-	switch rapid.IntRange(0, 5).Draw(t, "family") {
+	switch rapid.IntRange(0, 6).Draw(t, "family") {
+	case 6: // an entry for which nothing is extracted, deep below a link that physically leaves dst for a while
+		a, b := seg("a"), seg("b")
+		if a == b {
+			b = b + "2"
+		}
+		tail := rapid.SampledFrom([]string{"/..", "/../..", "/../dst-evil", "/../outside"}).Draw(t, "viatail6")
+		kind := rapid.SampledFrom([]string{"xglobal", "xglobal", "fifo", "char", "hardlink", "raw:Z", "dir", "file"}).Draw(t, "kind6")
+		e := ent(b+rapid.SampledFrom([]string{"/x/y", "/esc/x/y", "/x/y/"}).Draw(t, "deep6"), kind, "")
+		if kind == "hardlink" {
+			e.Link = a
+		}
+		if kind == "xglobal" {
+			e.PAX = map[string]string{"comment": "x"}
+		}
+		plant = []tarx.Entry{ent(a, "symlink", "."), ent(b, "symlink", a+tail), e}
+		if rapid.Bool().Draw(t, "alone6") {
+			rest = nil
+		}
 	case 0: // relocation: an entry below a link, along a path that really exists elsewhere
 		d, n, l := seg("d"), seg("n"), seg("l")
 		linkName, linkTarget := n+"/"+l, ".."
@@ -397,7 +426,7 @@ func scenario(t *rapid.T, rest []tarx.Entry) []tarx.Entry {
 			linkName, linkTarget = l, "."
 		}
 		plant = []tarx.Entry{ent(d+"/", "dir", ""), ent(linkName, "symlink", linkTarget),
-			third(linkName + "/" + d + "/" + seg("e"))}
+			third(linkName + "/" + d + "/" + seg("e") + rapid.SampledFrom([]string{"", "", "/y"}).Draw(t, "deeper"))}
 	case 1: // a link made escaping by way of another link, then something at or below it
 		a, b := seg("a"), seg("b")
 		if a == b {
@@ -405,15 +434,15 @@ func scenario(t *rapid.T, rest []tarx.Entry) []tarx.Entry {
 		}
 		tail := rapid.SampledFrom([]string{"/..", "/../..", "/../dst-evil/x", "/../dst-evil", "/../outside"}).Draw(t, "viatail")
 		plant = []tarx.Entry{ent(a, "symlink", "."), ent(b, "symlink", a+tail),
-			third(rapid.SampledFrom([]string{b, b + "/x", "zz/../" + b + "/x", "./" + b}).Draw(t, "at"))}
+			third(rapid.SampledFrom([]string{b, b + "/x", "zz/../" + b + "/x", "./" + b, b + "/x/y", b + "/esc/x/y"}).Draw(t, "at"))}
 	case 2: // sibling-prefix target, then a file at the link's name
 		l := seg("l")
 		plant = []tarx.Entry{ent(l, "symlink", rapid.SampledFrom([]string{"../dst-evil/x", "../dst-evil", "{DST}-evil/x", "../dstX", "{DST}X"}).Draw(t, "sib")),
-			third(rapid.SampledFrom([]string{l, l + "/new", "zz/../" + l}).Draw(t, "at2"))}
+			third(rapid.SampledFrom([]string{l, l + "/new", "zz/../" + l, l + "/new/y"}).Draw(t, "at2"))}
 	case 4: // a link whose entry name is absolute (the leading slash is dropped on creation)
 		name := rapid.SampledFrom([]string{"/", "/", "//", "///"}).Draw(t, "slashes") + rapid.SampledFrom([]string{"l", "a/l", "a/b/l"}).Draw(t, "absname")
 		tgt := rapid.SampledFrom([]string{"..{DST}/x", "..{DST}", "../..{DST}/a", "..{DST}/../dst-evil/x", "{DST}/a", "a", "../a", "../../a", "../../../a"}).Draw(t, "abstarget")
-		plant = []tarx.Entry{ent(name, "symlink", tgt), third(rapid.SampledFrom([]string{"l", "l/x", "a/l", "zz/../l/x"}).Draw(t, "absat"))}
+		plant = []tarx.Entry{ent(name, "symlink", tgt), third(rapid.SampledFrom([]string{"l", "l/x", "a/l", "zz/../l/x", "l/x/y"}).Draw(t, "absat"))}
 	case 3: // boundary names: the cleaned name is exactly dst, or exactly dst's parent
 		name := rapid.SampledFrom([]string{"..", "../", "./..", "a/../..", "../.", "/..", ".", "./", "a/..", "../dst", "../dst/", "../dst/a"}).Draw(t, "bname")
 		plant = []tarx.Entry{third(name)}
